@@ -404,3 +404,107 @@ def check_profile(seed, n_cases=0):
             if r:
                 viol.append(dict(kind="profile", case=f"active={active} exc={exc!r}", violations=[f"Profile.__exit__ returns {r!r}: the exception leaving `with profiles[id]:` in ExecNode.execute would be swallowed"]))
     return viol, cases
+
+
+# =====================================================================================================================
+def check_graph_build(seed, n_cases=300):
+    """bounded stand-in / replay source for the contracts of DiGraphEx.from_exec_nodes and add_exec_node: random node
+    tables <= 5 nodes with positional / keyword / activation references in ANY direction (so cycles and self
+    references occur), setup / debug flags, tags, DAG inputs; the real from_exec_nodes against an independent
+    oracle: cyclic => NetworkXUnfeasible, setup node referencing an input => TawaziUsageError, otherwise nodes,
+    edges, tables and compound priorities"""
+    from networkx import NetworkXUnfeasible
+
+    from harness.control import World
+    from tawazi._dag.digraph import DiGraphEx
+    from tawazi.errors import TawaziUsageError
+    from tawazi.node import UsageExecNode
+
+    rnd = random.Random(seed)
+    viol, cases = [], 0
+    names = ["a", "b", "c", "d", "e"]
+    for idx in range(n_cases):
+        n = rnd.randint(1, 5)
+        ids = names[:n]
+        n_in = rnd.randint(0, 2)
+        inputs = [f"in{i}" for i in range(n_in)]
+        acyclic_only = rnd.random() < 0.6
+        nodes = []
+        for i, nid in enumerate(ids):
+            pool = (ids[:i] if acyclic_only else ids) + inputs
+            nd = dict(id=nid, deps=[], kwdeps={}, prio=rnd.choice([-2, 0, 1, 3]))
+            for _ in range(rnd.randint(0, 2)):
+                if pool:
+                    nd["deps"].append((rnd.choice(pool), rnd.choice([[], ["k"]])))
+            if pool and rnd.random() < 0.3:
+                nd["kwdeps"]["kw"] = (rnd.choice(pool), [])
+            if pool and rnd.random() < 0.3:
+                nd["active"] = (rnd.choice(pool), rnd.choice([[], ["t"]]))
+            if rnd.random() < 0.25:
+                nd["setup"] = True
+            elif rnd.random() < 0.2:
+                nd["debug"] = True
+            if rnd.random() < 0.3:
+                nd["tag"] = rnd.choice(["t1", ("t1", "t2")])
+            nodes.append(nd)
+        w = World(nodes, inputs=inputs)
+        cases += 1
+        refs = {nd["id"]: {d for d, _ in nd["deps"]} | {d for d, _ in nd["kwdeps"].values()} | ({nd["active"][0]} if nd.get("active") else set()) for nd in nodes}
+        for i_ in inputs:
+            refs[i_] = set()
+        allids = ids + inputs
+        succ = {a: {b for b in allids if a in refs[b]} for a in allids}
+
+        def desc(a):
+            seen_, st = set(), [a]
+            while st:
+                for b in succ[st.pop()]:
+                    if b not in seen_:
+                        seen_.add(b)
+                        st.append(b)
+            return seen_
+
+        cyclic = any(a in desc(a) for a in allids)
+        setup_on_input = any(nd.get("setup") and (refs[nd["id"]] & set(inputs)) for nd in nodes)
+        v = []
+        try:
+            xns = w.build_exec_nodes()
+        except ValueError:
+            continue  # debug + setup on one node etc.: refused by ExecNode itself
+        try:
+            g = DiGraphEx.from_exec_nodes([UsageExecNode(i_) for i_ in inputs], xns)
+        except TawaziUsageError:
+            if not setup_on_input:
+                v.append("[C11] TawaziUsageError although no setup node references a DAG input")
+            g = None
+        except NetworkXUnfeasible:
+            if not cyclic:
+                v.append("[C09] NetworkXUnfeasible although the dependency relation is acyclic")
+            g = None
+        else:
+            if setup_on_input:
+                v.append("[C11] a setup node that references a DAG input was accepted")
+            if cyclic:
+                v.append("[C09] a cyclic dependency relation was accepted (the scheduler would never finish)")
+        if g is not None and not v:
+            if set(g.nodes) != set(allids):
+                v.append(f"[C03] nodes of the graph {sorted(g.nodes)} != keys of the node table {sorted(allids)}")
+            exp_edges = {(d_, x_) for x_ in allids for d_ in refs[x_]}
+            if set(g.edges) != exp_edges:
+                v.append(f"[C02] edges {sorted(g.edges)} != references (positional, keyword, activation) {sorted(exp_edges)}")
+            for nd in nodes:
+                if bool(g.debug[nd["id"]]) != bool(nd.get("debug")) or bool(g.setup[nd["id"]]) != bool(nd.get("setup")):
+                    v.append(f"[C13] debug/setup table of {nd['id']}: {g.debug[nd['id']]}/{g.setup[nd['id']]}")
+                et = None if not nd.get("tag") else ([nd["tag"]] if isinstance(nd["tag"], str) else list(nd["tag"]))
+                if g.tag[nd["id"]] != et:
+                    v.append(f"[C12] tag table of {nd['id']}: {g.tag[nd['id']]} != {et}")
+            if not cyclic:
+                own = {nd["id"]: nd["prio"] for nd in nodes}
+                for i_ in inputs:
+                    own[i_] = 0
+                bad = {a: (g.compound_priority[a], own[a] + sum(own[b] for b in desc(a))) for a in allids if g.compound_priority[a] != own[a] + sum(own[b] for b in desc(a))}
+                if bad:
+                    v.append(f"[C07] compound priority (got, own + sum over distinct descendants) {bad}")
+        if v:
+            viol.append(dict(kind="history", check="graph_build", seed=seed, index=idx, world=w.describe(), violations=v))
+    return viol, cases
